@@ -119,7 +119,7 @@ DOM = [[0, 1], [10, -10], [0.13, 9.7], [-1, 3], [-2, 3], [0, 1.0000000003]]
 RNG = [[0, 1], [100, 0], [-5, 5], [-1, 640], [-2, 640], [0, 1.0000000005]]
 OPS = ([("domain", d) for d in DOM] + [("range", r) for r in RNG]
        + [("clamp", True), ("clamp", False), ("nice", None), ("nice", 3), ("copy", None), ("deepcopy", None), ("rmw-range", None), ("rmw-domain", None),
-          ("alias-range", RNG[1]), ("alias-domain", DOM[3])])
+          ("alias-range", RNG[1]), ("alias-domain", DOM[3]), ("iter-range", RNG[2]), ("iter-domain", DOM[2])])
 PROBES = (-1, 0, .5, 1, 3, 9.7, 20)
 PRE = (0, 50, -5)
 
@@ -150,6 +150,10 @@ def build(hist):
             d = s.domain()
             d.reverse()
             s.domain(d)
+        elif op == "iter-range":  # a one-shot iterable is as good as a list
+            s.range(v for v in arg)
+        elif op == "iter-domain":
+            s.domain(reversed(list(reversed(arg))))
         elif op == "alias-range":  # the caller goes on using the list it handed to the setter
             r = list(arg)
             s.range(r)
@@ -197,10 +201,10 @@ def check_history(hist):
         return bad
     i = hist[-1][0]
     # a setter sets: the scale must report exactly what it was just given
-    if hist[-1][1] in ("domain", "alias-domain") and list(after[i][0]) != [float(v) for v in hist[-1][2]]:
+    if hist[-1][1] in ("domain", "alias-domain", "iter-domain") and list(after[i][0]) != [float(v) for v in hist[-1][2]]:
         return ("C12:hist-setter-ignored", "after domain(%r) the scale reports the domain %r (history %r)"
                 % (hist[-1][2], list(after[i][0]), hist))
-    if hist[-1][1] in ("range", "alias-range") and list(after[i][1]) != list(hist[-1][2]):
+    if hist[-1][1] in ("range", "alias-range", "iter-range") and list(after[i][1]) != list(hist[-1][2]):
         return ("C12:hist-setter-ignored", "after range(%r) the scale reports the range %r (history %r)"
                 % (hist[-1][2], list(after[i][1]), hist))
     for k in range(len(before)):
